@@ -6,7 +6,7 @@ W=${SEED_WT:-/var/tmp/w/seedwt}
 if [ ! -d "$W" ]; then git -C /repo worktree add --detach "$W" HEAD >/dev/null 2>&1; fi
 cd "$W" && git checkout -q -- . && git checkout -q --detach main 2>/dev/null; git clean -qfd src tests >/dev/null
 mkdir -p "$V/build/seedtest"
-ids="$@"; [ -z "$ids" ] && ids=$(ls "$V/seeded")
+ids="$@"; [ -z "$ids" ] && ids=$(cd "$V/seeded" && ls -d C*-* 2>/dev/null)
 for id in $ids; do
   cd "$W" && git checkout -q -- . && git apply "$V/seeded/$id/patch.diff" || { echo "$id PATCH-FAILED"; continue; }
   out="$V/build/seedtest/$id.txt"
